@@ -254,13 +254,16 @@ namespace AIToolbox::Factored::MDP {
     }
 
     void Global::makeResult(VE::FinalFactors && finalFactors) {
-        // Finally, add the last inequalities for all remaining factors.
+        // Finally, add the last inequality. There is one remaining factor per
+        // disconnected component of the problem; the maximum over the joint
+        // space is the SUM of the per-component maxima, so it is their sum
+        // that must not be positive (constraining each one separately is
+        // strictly stronger and cuts off the optimum, or every solution).
         lp.row.setZero();
 
-        for (const auto ruleId : finalFactors) {
+        for (const auto ruleId : finalFactors)
             lp.row[ruleId] = 1.0;
-            lp.pushRow(LP::Constraint::LessEqual, 0.0);
-            lp.row[ruleId] = 0.0;
-        }
+
+        lp.pushRow(LP::Constraint::LessEqual, 0.0);
     }
 }
